@@ -729,10 +729,11 @@ def guarded_by_call(f, bb, callee_suffix):
     return False
 
 
-GUARD_LIKE = ("is_char_boundary", "is_empty", "len", "contains", "contains_key", "starts_with", "ends_with", "min", "max",
-              "saturating_sub", "checked_add", "checked_sub", "checked_mul", "checked_div", "checked_rem", "get", "get_mut",
-              "first", "last", "peek", "peeked_symbol_is", "is_some", "is_none", "is_ok", "is_err", "has", "find", "rfind",
-              "strip_prefix", "strip_suffix", "char_indices", "is_ascii", "clamp")
+GUARD_LIKE = ("is_char_boundary", "starts_with", "ends_with", "strip_prefix", "strip_suffix", "saturating_sub",
+              "checked_add", "checked_sub", "checked_mul", "checked_div", "checked_rem", "char_indices", "is_ascii", "clamp",
+              "peeked_symbol_is", "has")
+# (ubiquitous accessors such as len/get/first/min are left out on purpose: hoisting a repeated `s.len()` into a
+# variable changes their count without changing any guard)
 
 
 def guard_census(f):
